@@ -98,10 +98,10 @@ func (api *API) mapDecodeBasedOnType(ctx context.Context, mapVal any, value refl
 			}
 			sliceValue := sliceFromArray(value.Elem())
 			sliceValueType := sliceValue.Type()
-			if sliceValueType.AssignableTo(bytesType) {
-				// like the encoder, which looks up the type settings of the pointer type: without an object type
-				// the byte array was written as a bare hex string, with one as an object holding the hex string.
-				innerTS, _ := api.typeSettingsRegistry.GetByType(valueType)
+			// like the encoder, which looks up the type settings of the pointer type: without an object type
+			// the byte array was written as a bare hex string, with one as an object holding the hex string.
+			innerTS, _ := api.typeSettingsRegistry.GetByType(valueType)
+			if sliceValueType.AssignableTo(bytesType) || hasByteObjectForm(mapVal, sliceValueType, innerTS) {
 
 				var fieldValStr string
 				if innerTS.ObjectType() == nil {
@@ -159,7 +159,7 @@ func (api *API) mapDecodeBasedOnType(ctx context.Context, mapVal any, value refl
 	case reflect.Array:
 		sliceValue := sliceFromArray(value)
 		sliceValueType := sliceValue.Type()
-		if sliceValueType.AssignableTo(bytesType) {
+		if sliceValueType.AssignableTo(bytesType) || hasByteObjectForm(mapVal, sliceValueType, ts) {
 			fieldValStr, ok := mapVal.(string)
 			if !ok {
 				// a byte array whose type settings carry an object type is written by the encoder as an object
@@ -374,6 +374,16 @@ func (api *API) mapDecodeInterface(
 	return nil
 }
 
+// hasByteObjectForm reports whether mapVal is the object {"type": code, key: hex} in which mapEncodeSlice writes a
+// slice (or the slice view of an array) of the given type: the type settings carry an object type and the elements
+// are bytes. Like the encoder it tests the element kind, so that element types like `type B uint8` are included,
+// which are not assignable to []byte.
+func hasByteObjectForm(mapVal any, sliceType reflect.Type, ts TypeSettings) bool {
+	_, isMap := mapVal.(map[string]any)
+
+	return isMap && ts.ObjectType() != nil && sliceType.Elem().Kind() == reflect.Uint8
+}
+
 // checkMapObjectCode verifies that the "type" entry of the object m is the code of objectType,
 // like mapDecodeStruct does for a struct with an object type.
 func checkMapObjectCode(m map[string]any, objectType any) error {
@@ -509,7 +519,7 @@ func (api *API) mapDecodeStructFields(
 
 func (api *API) mapDecodeSlice(ctx context.Context, mapVal any, value reflect.Value,
 	valueType reflect.Type, ts TypeSettings, opts *options) error {
-	if valueType.AssignableTo(bytesType) {
+	if valueType.AssignableTo(bytesType) || hasByteObjectForm(mapVal, valueType, ts) {
 		fieldValStr, ok := mapVal.(string)
 		if !ok {
 			// a byte slice whose type settings carry an object type is written by the encoder as an object
@@ -541,8 +551,8 @@ func (api *API) mapDecodeSlice(ctx context.Context, mapVal any, value reflect.Va
 			}
 		}
 
-		addrValue := value.Addr().Convert(reflect.TypeOf((*[]byte)(nil)))
-		addrValue.Elem().SetBytes(byteSlice)
+		// SetBytes also serves a slice of a named byte type, which is not convertible to *[]byte
+		value.SetBytes(byteSlice)
 
 		return nil
 	}
